@@ -39,6 +39,13 @@ func c14(e *Env) {
 	cfg.WClock = 0
 	cfg.Hosts = 1 + c.Choose("hosts", 3)
 	cfg.NumConns = 1
+	// some runs: one registered client stops reading at some point (its socket and its short write
+	// queue - tuning knob - fill up) and goes away seconds later; the others are prompt throughout
+	nonReader := c.Choose("c14-non-reader", 4) == 3
+	if nonReader {
+		cfg.MaxMessages = 1 + c.Choose("c14-maxmessages", 3)
+	}
+	var rude *c14client
 	w, pi := boot(e, cfg)
 	if pi.BootErr != nil || pi.Listener == nil {
 		if !w.Stopped() {
@@ -157,6 +164,16 @@ func c14(e *Env) {
 	w.DoWork = func(int) {
 		opsDone++
 		//                          reg emitS emitOther disconnect connect killctl query
+		if nonReader && rude == nil && opsDone > 3 && c.Choose("stops-reading-now", 6) == 5 {
+			for _, cc := range cls {
+				if cc.cl.Connected() && cc.regTried != 0 {
+					rude = cc
+					cc.cl.StopReading(32 + c.Choose("c14-sndbuf", 200))
+					e.Res.Stats["probe.c14.registered_client_stopped_reading"]++
+					break
+				}
+			}
+		}
 		switch c.Weighted("c14op", []int{4, 12, 3, 2, 2, 1, 4}) {
 		case 0:
 			cc := cls[c.Choose("who", len(cls))]
@@ -275,6 +292,14 @@ func c14(e *Env) {
 	}
 	w.RunUntil(func() bool { return opsDone >= nOps }, time.Hour)
 	w.Workload = nil
+	if rude != nil && rude.cl.Connected() {
+		// the client that does not read stays for a few seconds more and then goes away: whatever
+		// waited behind it is delivered now, to everybody who is entitled to it, once
+		w.RunUntil(func() bool { return false }, time.Duration(1+c.Choose("c14-rude-stays", 8))*time.Second)
+		rude.leftAt = w.Seq()
+		rude.cl.Abort()
+		e.Res.Stats["probe.c14.non_reading_client_left"]++
+	}
 	// drain: everything in flight is delivered; the control connection comes back
 	w.RunUntil(func() bool { return false }, 2*time.Minute)
 	w.Quiesce()
